@@ -759,3 +759,50 @@ Definition spelled_case := (sjson * json)%type.
 Definition spelled_case_ok (k : spelled_case) : bool :=
   match redact_text (fst k) with Some j => json_eqb j (snd k) | None => false end.
 Definition spelled_mismatches (l : list spelled_case) : list nat := mismatches_from spelled_case_ok 0 l.
+
+(* ------------------------------------------------------- opaque values held BY REFERENCE (any depth) *)
+(* A decoded JSON value in a Go interface{}: objects are maps and arrays are slices - storage regions that a copy of the
+   enclosing struct (or a one-level copy of the top map) still shares.  RedactDumpJSON / redactRawJSON redact what they
+   DECODED themselves (all regions fresh); the typed redactor never writes below an opaque position. *)
+Inductive rjson :=
+| RScalar (j : json)                       (* null, booleans, numbers *)
+| RStr (s : string)
+| RArr (r : N) (l : list rjson)
+| RObj (r : N) (kvs : list (string * rjson)).
+
+(* the in-place JSON redactor (redactJSONValue): the regions it writes, in order *)
+Fixpoint blank_inplace (j : rjson) : list N :=
+  match j with
+  | RArr _ l => (fix go (l : list rjson) : list N := match l with [] => [] | x :: l' => (blank_inplace x ++ go l')%list end) l
+  | RObj r kvs =>
+    (fix go (kvs : list (string * rjson)) : list N :=
+       match kvs with
+       | [] => []
+       | (k, x) :: kvs' =>
+         ((if key_eq k tls_key_json
+           then match x with
+                | RStr s => if (String.eqb s "" || String.eqb s placeholder)%bool then [] else [r]
+                | _ => blank_inplace x
+                end
+           else blank_inplace x) ++ go kvs')%list
+       end) kvs
+  | _ => []
+  end.
+
+(* a copy whose every region is new: what decoding a serialisation gives (region r of the original becomes f r) *)
+Fixpoint relabel (f : N -> N) (j : rjson) : rjson :=
+  match j with
+  | RArr r l => RArr (f r) ((fix go (l : list rjson) : list rjson := match l with [] => [] | x :: l' => relabel f x :: go l' end) l)
+  | RObj r kvs => RObj (f r) ((fix go (kvs : list (string * rjson)) : list (string * rjson) :=
+                                 match kvs with [] => [] | (k, x) :: kvs' => (k, relabel f x) :: go kvs' end) kvs)
+  | _ => j
+  end.
+Definition copy_deep (next : N) (j : rjson) : rjson := relabel (fun r => next + r) j.
+(* a copy of the top map only: a new map holding the SAME element values *)
+Definition copy_top (next : N) (j : rjson) : rjson :=
+  match j with RObj _ kvs => RObj next kvs | RArr _ l => RArr next l | _ => j end.
+
+(* a live extend_verify map (regions 1..3 < 10) with a key two levels down, and one with the key at the top *)
+Definition w_ev_nested : rjson :=
+  RObj 1 [("verify", RObj 2 [("tls_context", RObj 3 [("status", RScalar (JBool true)); ("private_key", RStr "KEY-EV")])])].
+Definition w_ev_top : rjson := RObj 1 [("private_key", RStr "KEY-EV"); ("mode", RStr "x")].
